@@ -61,7 +61,7 @@ def main() -> int:
     with cf.ProcessPoolExecutor(max_workers=min(16, max(1, len(args)))) as ex:
         res = list(ex.map(one, args))
     if "--matrix" in sys.argv or True:
-        own_miss, cross = [], []
+        own_miss, cross, limits = [], [], []
     for r in res:
         meta = pathlib.Path(r["dir"]) / "meta.json"
         want = json.loads(meta.read_text()).get("property") if meta.exists() else "?"
@@ -75,15 +75,22 @@ def main() -> int:
         name = pathlib.Path(r["dir"]).name
         if name.startswith("twin-"):
             bad = {k: v[:2] for k, v in fired.items()}
-            print(f"{'SILENT' if not bad and not errs else 'FALSE-ALARM'} {name} (preserves {want}): {bad if bad else ''}" + (f" ERRORS={ {k: v[:1] for k, v in errs.items()} }" if errs else ""))
-            if bad or errs:
+            limit = json.loads(meta.read_text()).get("known_limit") if meta.exists() else None
+            word = "SILENT" if not bad and not errs else ("LIMIT" if limit else "FALSE-ALARM")
+            print(f"{word} {name} (preserves {want}): {bad if bad else ''}" + (f" ERRORS={ {k: v[:1] for k, v in errs.items()} }" if errs else "")
+                  + (" [documented limit no longer applies]" if limit and word == "SILENT" else ""))
+            if (bad or errs) and not limit:
                 own_miss.append(name)
+            if (bad or errs) and limit:
+                limits.append(name)
             continue
         others = sorted(k for k in fired if k != want)
         print(f"{'CAUGHT' if own else 'MISSED-BY-OWN'} {name} (breaks {want}): own={fired.get(want, [])[:2]} others={others}" + (f" ERRORS={sorted(errs)}" if errs else ""))
         if not own:
             own_miss.append(name)
     print(f"\n{len(res)} seeded changes; missed by the check of their own property: {own_miss}")
+    if limits:
+        print(f"documented limits (behaviour-preserving restructurings the checks still alarm on, see DESIGN.md 9.0e): {len(limits)}: {limits}")
     return 0
 
 
